@@ -50,6 +50,7 @@ func verifHarness_C20_observer() {
 	}
 	verifAssert(!verifMutexHeld(&obs.streamGrowLock), "observer-lock-released-on-every-exit")
 	verifAssert(!panicked, "report-never-panics")
+
 	// a following well-formed stream is served
 	obs.ReportStreamValue(3, 1)
 	verifReach("follow-up-served")
@@ -196,4 +197,26 @@ func verifHarness_C20_handler() {
 	verifAssert(calls == before+2 && balance == 0, "following-stream-bookkeeping-balanced")
 	verifAssert(!verifMutexHeld(&obs.streamGrowLock), "observer-lock-released-after-following-stream")
 	verifReach("follow-up-stream-served")
+}
+
+
+// verifHarness_C20_loggerTick: the periodic logger (Start -> PrintActiveStreams) reads the counter table
+// under the same lock that every stream open and close takes; whatever size an earlier huge shard id
+// made the table grow to (it never shrinks), the tick releases the lock and later streams are counted.
+func verifHarness_C20_loggerTick() {
+	verifConfig("maxvisits", 4000000)
+	obs := NewReplicationStreamObserver(c20Logger{})
+	n := 1024
+	if verifChoose("table", 2) == 1 {
+		n = 1<<20 + 8 // after a stream with a shard id around 930000
+		verifReach("huge-table")
+	}
+	obs.streamActive = make([]atomic.Int32, n)
+	obs.ReportStreamValue(3, 1)
+	_ = obs.PrintActiveStreams()
+	verifReach("logger-tick")
+	verifAssert(!verifMutexHeld(&obs.streamGrowLock), "observer-lock-released-after-the-logger-tick")
+	obs.ReportStreamValue(5, 1)
+	obs.ReportStreamValue(3, -1)
+	verifReach("follow-up-served")
 }
